@@ -260,6 +260,234 @@ theorem realloc_result_belongs_to_reallocating_test (live : List Nat) (id newId 
       bne_iff_ne, ne_eq, not_true_eq_false, and_false, or_false] at h
     exact hne h.symm
 
+/-! ## window_is_pre_to_post
+
+The leak window is exactly "from the plugin's pre action to its post action" and, by the
+regenerated call order of `runOneTestInCurrentProcess`, `createTest` and `destroyTest` lie inside
+it: what the constructor and the destructor of the test object allocate and release counts like
+what setup, body and teardown do; what happens before the pre action does not. -/
+
+/-- a test whose object does nothing in its constructor and destructor is a plain test -/
+theorem runTestObj_plain (w : World) (t : Test) : runTestObj w { test := t } = runTest w t := rfl
+
+/-- The verdict of a test with an allocating test object: the blocks that count are those
+    allocated by constructor, setup, body, teardown and destructor and still outstanding after the
+    destructor (`blocksOfObj`); blocks allocated before the pre action (`before`) never count. -/
+theorem window_is_pre_to_post (w : World) (hc : Clean w) (hov : w.overloads = true) (t : TestObj) :
+    (runTestObj w t).leakFail.isSome = true ↔
+      ((atEndObj w.liveIds t).own = 0 ∧ (atEndObj w.liveIds t).ignore = false ∧
+        (blocksOfObj w.liveIds t).length ≠ (atEndObj w.liveIds t).expected) := by
+  rw [leakFail_runTestObj hc t, hov]
+  simp only [Bool.true_and]
+  by_cases h : shouldFailObj w.liveIds t = true
+  · simp only [h, if_true, Option.isSome_some, true_iff]
+    simpa [shouldFailObj, verdictAt, blocksOfObj, and_assoc] using h
+  · simp only [h]
+    simp only [Bool.false_eq_true, if_false, Option.isSome_none, false_iff]
+    intro h'
+    apply h
+    simpa [shouldFailObj, verdictAt, blocksOfObj, and_assoc] using h'
+
+/-- its report lists exactly those blocks, and none that was outstanding at the pre action -/
+theorem window_report_lists_exactly (w : World) (hc : Clean w) (t : TestObj) (r : LeakReport)
+    (h : (runTestObj w t).leakFail = some r) :
+    r.entries.map (·.id) = blocksOfObj w.liveIds t ∧ r.total = (blocksOfObj w.liveIds t).length ∧
+      ∀ e ∈ r.entries, ∀ r0 ∈ (runOutside (clearObs w) t.test.before).det.recs, e.num ≠ r0.num := by
+  rw [leakFail_runTestObj hc t] at h
+  split at h
+  · cases h
+    refine ⟨(sim_atDtorEnd hc t).chk, rfl, ?_⟩
+    intro e he r0 hr0
+    have hn := numInv_atDtorEnd hc t
+    simp only [List.mem_filter, beq_iff_eq] at he
+    have h1 : (atStart w t.test).det.seq ≤ e.num := hn.fresh e he.1 he.2
+    have h2 : r0.num < (atStart w t.test).det.seq := (clean_atStart hc t.test).numsBelow r0 hr0
+    omega
+  · cases h
+
+/-- the state between tests is re-established and the history is followed, as for plain tests -/
+theorem clean_after_test_with_object (w : World) (hc : Clean w) (t : TestObj) :
+    Clean (runTestObj w t) ∧ (runTestObj w t).liveIds = liveAfterTestObj w.liveIds t :=
+  ⟨clean_runTestObj hc t, liveIds_runTestObj hc t⟩
+
+/-! ## tests run in a separate process -/
+
+/-- Leaks are detected in the child only: the parent's detector, plugin flags and overload
+    switch are what they were at the fork (after the memory operations that precede the test). -/
+theorem separate_process_parent_detector_unchanged (w : World) (t : TestObj) :
+    (runTestSeparate w t).det = (runOutside (clearObs w) t.test.before).det ∧
+    (runTestSeparate w t).plg = (runOutside (clearObs w) t.test.before).plg ∧
+    (runTestSeparate w t).overloads = (runOutside (clearObs w) t.test.before).overloads := by
+  unfold runTestSeparate joinSeparate
+  split <;> exact ⟨rfl, rfl, rfl⟩
+
+/-- in particular: nothing the child allocated, released or leaked exists in the parent -/
+theorem separate_process_leaves_parent_table (w : World) (t : TestObj) (h : t.test.before = []) :
+    (runTestSeparate w t).det = w.det ∧ (runTestSeparate w t).plg = w.plg := by
+  have := separate_process_parent_detector_unchanged w t
+  rw [h] at this
+  exact ⟨this.1, this.2.1⟩
+
+/-- The parent records exactly one failure when the child recorded any (own failing checks or the
+    leak failure), none otherwise. -/
+theorem separate_process_failure_iff (w : World) (hc : Clean w) (t : TestObj) :
+    (runTestSeparate w t).failures =
+      w.failures + (if (atEndObj w.liveIds t).own > 0 ∨ (w.overloads && shouldFailObj w.liveIds t) = true then 1 else 0) := by
+  have hf := failures_runTestObj hc t
+  have h0 : (runOutside (clearObs w) t.test.before).failures = w.failures := failures_atStart w t.test
+  unfold runTestSeparate joinSeparate
+  rw [hf, h0]
+  cases hb : (w.overloads && shouldFailObj w.liveIds t) <;> simp <;> split <;> simp_all <;> omega
+
+theorem clean_after_separate_process (w : World) (hc : Clean w) (t : TestObj) : Clean (runTestSeparate w t) := by
+  have hcl : Clean (runOutside (clearObs w) t.test.before) := clean_atStart hc t.test
+  unfold runTestSeparate joinSeparate
+  split
+  · exact { noChecking := hcl.noChecking, notChecking := hcl.notChecking, numsBelow := hcl.numsBelow,
+            ignoreOff := hcl.ignoreOff, expectedZero := hcl.expectedZero }
+  · exact hcl
+
+/-! ## EXPECT_N_LEAKS / IGNORE_ALL_LEAKS_IN_TEST: where and how often
+
+`expectLeaksInTest(n)` ASSIGNS `expectedLeaks_` (regenerated shape check: `expectedLeaks_ = n;`):
+several declarations do not add up, the last one performed wins, whatever phase it is in.
+`ignoreAllLeaksInTest()` sets a flag that nothing but the post action clears. -/
+
+theorem expect_assigns (h : HState) (n : Nat) : (hexec h (.expectLeaks n)).expected = n := rfl
+
+theorem expect_assigns_in_model (w : World) (n : Nat) : (execCmd w (.expectLeaks n)).plg.expected = n := rfl
+
+theorem hAlloc_keeps (h : HState) (id : Nat) :
+    (hAlloc h id).expected = h.expected ∧ (hAlloc h id).ignore = h.ignore := by
+  unfold hAlloc; split <;> exact ⟨rfl, rfl⟩
+
+theorem other_commands_keep_expected (h : HState) (c : Cmd) (hc : ∀ n, c ≠ .expectLeaks n) :
+    (hexec h c).expected = h.expected := by
+  cases c with
+  | expectLeaks n => exact absurd rfl (hc n)
+  | alloc id sz => exact (hAlloc_keeps h id).1
+  | realloc id newId sz =>
+    simp only [hexec]
+    split
+    · rfl
+    · split
+      · rfl
+      · exact (hAlloc_keeps _ newId).1
+  | _ => rfl
+
+/-- the last declaration performed in a phase wins -/
+theorem expect_last_wins (h : HState) (cs : List Cmd) (n : Nat) (hna : (hrun h cs).aborted = false) :
+    (hrun h (cs ++ [.expectLeaks n])).expected = n := by
+  simp only [hrun, List.foldl_append, List.foldl_cons, List.foldl_nil]
+  have : (List.foldl hstep h cs).aborted = false := hna
+  simp only [hstep, this, Bool.false_eq_true, if_false]
+  rfl
+
+theorem ignore_kept_hexec (h : HState) (c : Cmd) (hi : h.ignore = true) : (hexec h c).ignore = true := by
+  cases c with
+  | alloc id sz => exact (hAlloc_keeps h id).2.trans hi
+  | realloc id newId sz =>
+    simp only [hexec]
+    split
+    · exact hi
+    · split
+      · exact hi
+      · exact (hAlloc_keeps _ newId).2.trans hi
+  | ignoreLeaks => rfl
+  | _ => exact hi
+
+theorem ignore_kept_hrun : ∀ (cs : List Cmd) (h : HState), h.ignore = true → (hrun h cs).ignore = true
+  | [], _, hi => hi
+  | c :: cs, h, hi => by
+    simp only [hrun, List.foldl_cons]
+    apply ignore_kept_hrun cs
+    unfold hstep; split
+    · exact hi
+    · exact ignore_kept_hexec h c hi
+
+theorem ignore_kept_hPhase (h : HState) (ph : Phase) (cs : List Cmd) (hi : h.ignore = true) :
+    (hPhase h ph cs).ignore = true := by
+  unfold hPhase
+  apply ignore_kept_hrun
+  cases ph <;> exact hi
+
+/-- Once a test has asked to ignore leaks (in its setup, say), it stays that way to the end of the
+    test: no later command and no later phase takes it back. -/
+theorem ignore_sticks_from_setup (live : List Nat) (t : Test)
+    (hi : (hPhase (start (liveAtStart live t)) .setup t.setup).ignore = true) : ignores live t = true := by
+  unfold ignores atEnd
+  exact ignore_kept_hPhase _ _ _ (ignore_kept_hPhase _ _ _ hi)
+
+/-- A declaration at the end of a teardown that was not left by a failing check overrides
+    whatever setup and body declared. -/
+theorem expect_in_teardown_wins (live : List Nat) (t : Test) (td : List Cmd) (n : Nat)
+    (ht : t.teardown = td ++ [.expectLeaks n])
+    (hna : (hPhase (hPhase (hPhase (start (liveAtStart live t)) .setup t.setup) .body t.body) .teardown td).aborted = false) :
+    Hist.expected live t = n := by
+  unfold Hist.expected atEnd
+  rw [ht]
+  unfold hPhase at hna ⊢
+  exact expect_last_wins _ td n hna
+
+/-! ## FinalReport, the overload switches, destroyGlobalDetector -/
+
+theorem finalReport_is_FinalReport_zero (w : World) : finalReport w = finalReportN w 0 := rfl
+
+/-- `FinalReport(n)` is silent exactly when `n` blocks stamped enabled or checking are outstanding
+    (blocks allocated while the detector was disabled do not count) -/
+theorem finalReportN_silent_iff (w : World) (n : Nat) :
+    finalReportN w n = none ↔ (w.det.recs.filter (fun r => r.period != .disabled)).length = n := by
+  unfold finalReportN
+  have : w.det.totalMemoryLeaks Gen.LeakCode.finalCountPeriod = (w.det.recs.filter (fun r => r.period != .disabled)).length := by
+    simp [Detector.totalMemoryLeaks, Detector.leaksIn, Gen.LeakCode.finalCountPeriod, isInPeriod_enabled]
+  rw [this]
+  by_cases h : (w.det.recs.filter (fun r => r.period != .disabled)).length = n <;> simp [h]
+
+/-- otherwise it appends one entry per such block to the output buffer and states their number -/
+theorem finalReportN_lists (w : World) (n : Nat) (r : LeakReport) (h : finalReportN w n = some r) :
+    r.entries = w.det.out ++ w.det.recs.filter (fun r => r.period != .disabled) ∧
+      r.total = (w.det.recs.filter (fun r => r.period != .disabled)).length := by
+  unfold finalReportN at h
+  split at h
+  · cases h
+    simp [Detector.report, Detector.leaksIn, Gen.LeakCode.finalReportPeriod, isInPeriod_enabled]
+  · cases h
+
+/-- after `turnOffNewDeleteOverloads()` no test gets a leak failure, whatever it leaks … -/
+theorem no_leak_failure_after_turnOff (w : World) (hc : Clean w) (t : Test) :
+    (runTest (turnOffOverloads w) t).leakFail = none :=
+  no_leak_failure_without_overloads _ (clean_setOverloads hc _) rfl t
+
+/-- … and after `turnOnDefaultNotThreadSafeNewDeleteOverloads()` the verdict is the property's again -/
+theorem verdict_after_turnOn (w : World) (hc : Clean w) (t : Test) :
+    (runTest (turnOnOverloads (turnOffOverloads w)) t).leakFail.isSome = shouldFail w.liveIds t := by
+  have hc' : Clean (turnOnOverloads (turnOffOverloads w)) := clean_setOverloads (clean_setOverloads hc _) _
+  rw [leakFail_runTest hc' t]
+  have h1 : (turnOnOverloads (turnOffOverloads w)).overloads = true := rfl
+  have h2 : (turnOnOverloads (turnOffOverloads w)).liveIds = w.liveIds := rfl
+  rw [h1, h2]
+  cases shouldFail w.liveIds t <;> rfl
+
+/-- The "leak detection was disabled" warning is printed exactly for a test that would have got a
+    leak failure, with the overloads off, and that declared a positive number of leaks. -/
+theorem warning_iff (w : World) (hc : Clean w) (t : Test) :
+    (runTest w t).warned = true ↔
+      (w.overloads = false ∧ shouldFail w.liveIds t = true ∧ Hist.expected w.liveIds t > 0) := by
+  have hs := sim_atTeardownEnd hc t
+  have ho := atTeardownEnd_obs w t
+  rw [runTest_eq, post_warned, ho.2.1, ho.2.2.1, condAtPost_eq hs]
+  simp only [Gen.LeakCode.warnCond, hs.exp, Bool.false_or, Bool.and_eq_true, Bool.not_eq_true',
+    decide_eq_true_eq, shouldFail, ownFailures, ignores, blocksOf, Hist.expected]
+  constructor
+  · rintro ⟨⟨h1, h2⟩, h3⟩; exact ⟨h2, h1, h3⟩
+  · rintro ⟨h2, h1, h3⟩; exact ⟨⟨h1, h2⟩, h3⟩
+
+/-- `destroyGlobalDetector()`: overloads off, and whoever asks for the global detector next gets a
+    newly constructed one (no records, allocation numbers from the start, detector disabled) -/
+theorem destroy_gives_fresh_detector (w : World) :
+    (destroyGlobalDetector w).det = Detector.init ∧ (destroyGlobalDetector w).overloads = false ∧
+      (destroyGlobalDetector w).det.recs = [] := ⟨rfl, rfl, rfl⟩
+
 /-! ## already_failed_gets_no_leak_failure -/
 
 /-- A test with an own failing check gets no leak failure, whatever it leaked. -/
@@ -332,6 +560,24 @@ example : (runTests (World.init true) reallocTests).2.map (fun v => v.leakFail.m
 example : verdicts [] exampleTests = [true, true, false, false, false, false] := by decide
 
 example : Clean (World.init true) ∧ (World.init true).overloads = true := ⟨init_clean true, rfl⟩
+
+/-- a block allocated before the pre action is not charged; one allocated by the constructor and
+    never released is; one the destructor releases is not; one the destructor allocates is -/
+def objectTests : List TestObj :=
+  [ { test := { before := [.alloc 1 8] } },
+    { ctor := [.alloc 2 8] },
+    { ctor := [.alloc 3 8], dtor := [.free 3] },
+    { test := { body := [.alloc 4 8] }, dtor := [.alloc 5 8, .free 4] } ]
+
+example : objectTests.map (fun t => (runTestObj (World.init true) t).leakFail.map (fun r => r.entries.map (·.id))) =
+    [none, some [2], none, some [5]] := by decide
+
+-- a leaking test in a separate process: the parent gets one failure and its table stays empty
+example : (runTestSeparate (World.init true) { test := { body := [.alloc 1 8] } }).failures = 1 ∧
+    (runTestSeparate (World.init true) { test := { body := [.alloc 1 8] } }).det.recs = [] := by decide
+
+-- EXPECT_N_LEAKS twice: the last one wins (2 + 1 is not 3)
+example : Hist.expected [] { setup := [.expectLeaks 2], body := [.expectLeaks 1] } = 1 := by decide
 
 -- the hypotheses of `earlier_free_does_not_offset` are met by test 2 and block 1
 example : neverAllocs 1 [Cmd.free 1, Cmd.alloc 2 4] := by
